@@ -63,3 +63,14 @@ def request_in_other_subpackage(case):
         if ipkg != f["package"] and ipkg in pkgs:
             return True
     return False
+
+
+def prefix_dep_package(case):
+    api = _api(case)
+    targets = api.get("file_to_generate")
+    if not targets:
+        return False
+    import os
+    root = os.path.commonprefix([f["package"] for f in api["files"] if f["name"] in targets]).rstrip(".")
+    return any(f["name"] not in targets and f["package"].startswith(root) and not f["package"].startswith(root + ".") and f["package"] != root
+               for f in api["files"])
